@@ -276,6 +276,20 @@ func genRCase(r *vk.RNG, wantSink int) *rcase {
 	if r.Chance(1, 3) {
 		c.Tail = vk.Pick(r, []string{"\ntail", " t", "\n"})
 	}
+	if r.Chance(1, 14) {
+		// a page of 64 KiB and more: big static text, or two mapped values of 32 KiB each (lengths are 32-bit
+		// quantities everywhere; the 16-bit boundary must not matter)
+		if r.Bool() {
+			c.Static = strings.Repeat("S", 65536*r.Range(1, 2)+r.Range(-40, 60))
+		} else {
+			for i := 0; i < 2; i++ {
+				k := fmt.Sprintf("b%d", i)
+				c.Order = append(c.Order, k)
+				c.Values[k] = strings.Repeat(string(rune('B'+i)), 32768+r.Range(-20, 30))
+				c.Sizes[k] = 40000
+			}
+		}
+	}
 	nm := r.Intn(5)
 	for i := 0; i < nm; i++ {
 		lab := fmt.Sprintf("l%d", i)
@@ -599,12 +613,20 @@ func sizesFor(c *rcase, r *vk.RNG, dense bool) []uint32 {
 	L := len(full)
 	set := map[uint32]bool{}
 	add := func(v int) {
-		if v >= 1 && v < 70000 {
+		if v >= 1 && v < 300000 {
 			set[uint32(v)] = true
 		}
 	}
 	for d := -3; d <= 3; d++ {
 		add(L + d)
+	}
+	if L >= 65536 {
+		// the sizes a 16-bit length would be compared with
+		for d := -3; d <= 12; d++ {
+			add(L%65536 + d)
+		}
+		add(160)
+		add(65535)
 	}
 	add(1)
 	add(2)
@@ -612,7 +634,7 @@ func sizesFor(c *rcase, r *vk.RNG, dense bool) []uint32 {
 	for d := -2; d <= 6; d++ {
 		add(head + d)
 	}
-	if dense {
+	if dense && L-head < 4000 && head < 60000 {
 		for s := head - 2; s <= L+2; s++ {
 			add(s)
 		}
